@@ -226,8 +226,10 @@ func parseStackPCs(crash string) ([]uintptr, error) {
 
 		// Search for "goroutine GID [STATUS]"
 		if !on {
+			// The status may carry annotations, as in
+			// "goroutine 1 [running, locked to thread]:".
 			if strings.HasPrefix(line, "goroutine ") &&
-				strings.Contains(line, " [running]:") {
+				(strings.Contains(line, " [running]:") || strings.Contains(line, " [running, ")) {
 				on = true
 
 				if parentSentinel == 0 {
